@@ -343,7 +343,7 @@ def nest_params(entry, rng, wide):
     ms = models()
     fa, fb = ms[entry['A']], ms[entry['B']]
     na, nb = list(fa.__param_names__), list(fb.__param_names__)
-    pa = dict(zip(na, draw_params(rng, na, wide)))
+    pa = dict(zip(na, corner_params(rng, na) if wide == 'corner' else draw_params(rng, na, wide)))
     for n, v in entry['point'].items():
         if isinstance(v, str):
             pa[n] = None
@@ -357,6 +357,13 @@ def nest_params(entry, rng, wide):
         b = entry['bind'][n]
         pb.append(pa[b] if isinstance(b, str) else float(b))
     return [pa[n] for n in na], pb
+
+
+def corner_params(rng, names):
+    """Every size, rate and fraction at an end point of its documented range (sizes and fractions alternate between the two ends);
+    durations short and selection moderate (drawn)."""
+    base = draw_swap_params(rng, names)
+    return _with(names, base, nu=lambda k: NU_HI if k % 2 == 0 else NU_LO, m=M_HI, frac=lambda k: FR_LO if k % 2 == 0 else FR_HI)
 
 
 def arity_obs(func, params):
@@ -424,7 +431,7 @@ def realize(g, tid):
     elif kind == 'edge':
         f = ms[g['model']]
         for i, v in enumerate(g['evals']):
-            ev += evaluate(g['model'], f, v['params'], g['ns'], v.get('pts', g['pts']), tid, v['slot'], first=(i == 0), fine=v.get('fine', False), cont=v['cont'], num=v['num'])
+            ev += evaluate(g['model'], f, v['params'], v.get('ns', g['ns']), v.get('pts', g['pts']), tid, v['slot'], first=(i == 0), fine=v.get('fine', False), cont=v['cont'], num=v['num'])
         for k, (a, b) in enumerate(g['alike']):
             ev.append({'id': '%s-alike%d' % (tid, k), 'tid': tid, 'op': 'relate', 'kind': 'alike', 'a': a, 'b': b})
     else:
@@ -487,11 +494,21 @@ def gen_groups(ctx, rng):
     # (2) nestings
     nest = table['nestings']
     chosen, reps = nest, (1 if ctx.quick else 4)
+    seen_a, seen_b = set(), set()
     for e in chosen:
         P = ndim_of(e['A'], ms[e['A']])
         for d in range(reps):
             pa, pb = nest_params(e, rng, wide=(d >= 2))
             groups.append({'kind': 'nest', 'A': e['A'], 'B': e['B'], 'nesting': e['kind'], 'point': e['point'], 'pa': pa, 'pb': pb, 'ns': rand_ns(rng, P), 'pts': PTS[P]})
+        # the same relation with every free size, rate and fraction at an end point of its range (the reference for the
+        # boundary values is the nested model): in quick the first nesting of every model as A and as B, every nesting in thorough
+        # (as B a model has all its parameters free, so each of them sits at an end point there)
+        if not ctx.quick or e['A'] not in seen_a or e['B'] not in seen_b:
+            seen_a.add(e['A'])
+            seen_b.add(e['B'])
+            pa, pb = nest_params(e, rng, wide='corner')
+            groups.append({'kind': 'nest', 'A': e['A'], 'B': e['B'], 'nesting': e['kind'], 'point': e['point'], 'pa': pa, 'pb': pb, 'ns': rand_ns(rng, P), 'pts': PTS[P],
+                           'corner': True})
     # (3) label swaps at two time-step scales
     swaps = table['swaps']
     if ctx.quick:
@@ -591,8 +608,9 @@ def edge_groups(ctx, rng):
             # on their own: a fraction also scales sizes (s * nuPre), and the corner nu = 1e-2 with s = 1e-3 costs 1e6 time steps
             evals.append(ev('frlo', _with(names, base, frac=FR_LO), not ctx.quick))
             evals.append(ev('frhi', _with(names, base, frac=FR_HI), not ctx.quick))
-        evals.append(ev('eq', _with(names, base, nu=1.0, m=base[[pclass(n) for n in names].index('m')] if 'm' in cls else 0.0,
-                                    gamma=base[[pclass(n) for n in names].index('gamma')] if 'gamma' in cls else 0.0), False))
+        # all sizes 1, equal rates, equal selection - and equal sample sizes (every other evaluation has distinct ones)
+        evals.append(dict(ev('eq', [], False), ns=[4] * P, params=_with(names, base, nu=1.0, m=base[[pclass(n) for n in names].index('m')] if 'm' in cls else 0.0,
+                                    gamma=base[[pclass(n) for n in names].index('gamma')] if 'gamma' in cls else 0.0)))
         if 'T' in cls and (not ctx.quick or fam_t3.get(fam, 0) < 2):
             fam_t3[fam] = fam_t3.get(fam, 0) + 1
             evals.append(ev('t3', _with(names, base, T=T_HI, m=lambda k: 0.4 + 0.1 * k), (not ctx.quick) or P <= 2))
@@ -601,8 +619,7 @@ def edge_groups(ctx, rng):
                              ('t3i', {'T': 3, 'nu': 1, 'm': lambda k: 0.4 + 0.1 * k})):
                 if set(kw) & cls:
                     evals.append(ev(slot, _with(names, base, **kw), False))
-        # equal sample sizes here (every other group draws distinct ones)
-        groups.append({'kind': 'edge', 'model': q, 'ns': [4] * P, 'pts': PTS[P], 'evals': evals, 'alike': alike})
+        groups.append({'kind': 'edge', 'model': q, 'ns': rand_ns(rng, P, even='inbreeding' in q), 'pts': PTS[P], 'evals': evals, 'alike': alike})
     return groups
 
 
@@ -838,12 +855,18 @@ def run(ctx):
     cov['distinct_nontrivial'] = len({(g['kind'], site_of(g), json.dumps(g.get('point'), sort_keys=True), tuple(g.get('perm', ()))) for g in groups})
     cov['rule'] = ('one trace = one model evaluation under call proxies (begin, one event per primitive call, end); groups: every function exposing __param_names__ '
                    '(full clause set, every parameter perturbed in turn, arity probes), nesting pairs of the curated table (five documented kinds), label swaps at two '
-                   'time-step scales; non-trivial = distinct (group kind, model or pair, nesting point, relabelling)')
+                   'time-step scales, boundary groups (per model: integer-valued values as tuple of floats / numpy array of float64 / list with ints, all durations 0 as int and '
+                   'as numpy.float64, nu = 1e-2 & m = 0, nu = 100 & m = 10 judged on the fine grid, fractions 1e-3 / 0.999, all-equal values with equal sample sizes, '
+                   'durations 3), nesting pairs with every free size / rate / fraction at an end point of its range; '
+                   'non-trivial = distinct (group kind, model or pair, nesting point, relabelling)')
     cov['trace_validation'] = {'spec': TRACE_SPEC, 'groups': len(groups), 'groups_by_kind': kinds, 'events': nev, 'model_evaluations': nevals,
                                'tlc_states': st['states'], 'wall_s': round(st['wall'], 1), 'groups_rejected': len(verdicts)}
     cov['models'] = {'functions_with_param_names': len(models()), 'mscore_builders_arity_only': sum(1 for f in models().values() if is_mscore(f)),
                      'nestings_in_table': len(load_table()['nestings']), 'nestings_run': kinds.get('nest', 0),
                      'swaps_in_table': len(load_table()['swaps']), 'swaps_run': kinds.get('swap', 0)}
+    cov['boundary_records'] = {'edge_groups': kinds.get('edge', 0), 'edge_evaluations': sum(len(g['evals']) for g in groups if g['kind'] == 'edge'),
+                               'corner_nestings': sum(1 for g in groups if g.get('corner')),
+                               'bounds': {'nu': [NU_LO, NU_HI], 'T': [0, T_HI], 'm': [0, M_HI], 'fractions': [FR_LO, FR_HI]}}
     cov['binding_demo'] = {'mutated_traces': len(muts), 'rejected_with_expected_clause': len(muts) - len(missed), 'clauses': sorted({c for _, c in muts})}
     cov['samples'] = [common._shorten(e) for e in traces[len(traces) // 2][:4]]
     return res
